@@ -34,12 +34,12 @@ type Scenario struct {
 	RefDst  bool          `json:"refdst"`  // destination is a ReferencePusher
 	MapRoot int           `json:"maproot"` // 0: none, else node the root is mapped to
 	Faults  []Fault       `json:"faults"`
-	Cancel  int           `json:"cancel"` // cancel the context at this gate step (0: never, -1: before the call)
-	CMode   string        `json:"cmode"`  // "" / "before": before releasing the step's operation; "after": after its effect
+	Cancel  int           `json:"cancel"`  // cancel the context at this gate step (0: never, -1: before the call)
+	CMode   string        `json:"cmode"`   // "" / "before": before releasing the step's operation; "after": after its effect
 	SrcKind string        `json:"srckind"` // memory (default) | oci
 	DstKind string        `json:"dstkind"` // memory (default) | oci | file
-	CbErr   []Fault       `json:"cberr"`  // callback errors: op in pre post skipped
-	Prefix  []int         `json:"prefix"` // schedule: choice per step, then seeded random
+	CbErr   []Fault       `json:"cberr"`   // callback errors: op in pre post skipped
+	Prefix  []int         `json:"prefix"`  // schedule: choice per step, then seeded random
 	Seed    int64         `json:"seed"`
 	Choices []int         `json:"choices,omitempty"` // filled after the run: the full schedule taken
 }
